@@ -10,14 +10,11 @@ use tracing::debug;
 
 /// Updates user and permission caches after permission changes.
 async fn update_caches(
-    cache: &Arc<RwLock<UserCache>>,
+    cache_guard: &mut UserCache,
     permission_cache: &Arc<RwLock<PermissionCache>>,
     updated_key: UserKey,
 ) {
-    {
-        let mut cache_guard = cache.write().await;
-        cache_guard.insert(updated_key.clone());
-    } // Drop write lock on user cache
+    cache_guard.insert(updated_key.clone());
 
     {
         let mut perm_cache_guard = permission_cache.write().await;
@@ -34,17 +31,16 @@ pub async fn grant_permission(
     event_type: &str,
     permission_set: PermissionSet,
 ) -> AuthResult<()> {
-    // Use read lock first to get user data
-    let user_key = {
-        let cache_guard = cache.read().await;
-        cache_guard
-            .get(user_id)
-            .ok_or_else(|| {
-                debug!(target: "sneldb::auth", user_id, "User not found during grant");
-                AuthError::UserNotFound(user_id.to_string())
-            })?
-            .clone()
-    }; // Drop read lock
+    // Hold the write lock across read-modify-write: a concurrent grant / revoke must not be
+    // overwritten with a stale copy of the record
+    let mut cache_guard = cache.write().await;
+    let user_key = cache_guard
+        .get(user_id)
+        .ok_or_else(|| {
+            debug!(target: "sneldb::auth", user_id, "User not found during grant");
+            AuthError::UserNotFound(user_id.to_string())
+        })?
+        .clone();
 
     // Update permissions
     let mut updated_permissions = user_key.permissions.clone();
@@ -71,7 +67,7 @@ pub async fn grant_permission(
         roles: user_key.roles.clone(),
         permissions: updated_permissions,
     };
-    update_caches(cache, permission_cache, updated_key).await;
+    update_caches(&mut cache_guard, permission_cache, updated_key).await;
 
     if tracing::enabled!(tracing::Level::DEBUG) {
         debug!(
@@ -92,17 +88,16 @@ pub async fn revoke_permission(
     user_id: &str,
     event_type: &str,
 ) -> AuthResult<()> {
-    // Use read lock first to get user data
-    let user_key = {
-        let cache_guard = cache.read().await;
-        cache_guard
-            .get(user_id)
-            .ok_or_else(|| {
-                debug!(target: "sneldb::auth", user_id, "User not found during revoke permission");
-                AuthError::UserNotFound(user_id.to_string())
-            })?
-            .clone()
-    }; // Drop read lock
+    // Hold the write lock across read-modify-write: a concurrent grant / revoke must not be
+    // overwritten with a stale copy of the record
+    let mut cache_guard = cache.write().await;
+    let user_key = cache_guard
+        .get(user_id)
+        .ok_or_else(|| {
+            debug!(target: "sneldb::auth", user_id, "User not found during revoke permission");
+            AuthError::UserNotFound(user_id.to_string())
+        })?
+        .clone();
 
     // Remove permission for event_type
     let mut updated_permissions = user_key.permissions.clone();
@@ -129,7 +124,7 @@ pub async fn revoke_permission(
         roles: user_key.roles.clone(),
         permissions: updated_permissions,
     };
-    update_caches(cache, permission_cache, updated_key).await;
+    update_caches(&mut cache_guard, permission_cache, updated_key).await;
 
     if tracing::enabled!(tracing::Level::DEBUG) {
         debug!(
